@@ -37,6 +37,8 @@ func main() {
 		os.Exit(cmdFuncs(os.Args[2:]))
 	case "selftest":
 		os.Exit(cmdSelftest(os.Args[2:]))
+	case "extcalls":
+		os.Exit(cmdExtCalls(os.Args[2:]))
 	default:
 		usage()
 	}
@@ -113,6 +115,49 @@ func cmdDump(args []string) int {
 				fmt.Printf("    %-28s return %s\n", p.instrPos(in), strings.Join(rs, ", "))
 			}
 		}
+	}
+	return 0
+}
+
+// cmdExtCalls lists the non-repo callees of repo functions reachable from RunOnce (debug aid for
+// the library-precondition table of C20.R8).
+func cmdExtCalls(args []string) int {
+	fs := flag.NewFlagSet("extcalls", flag.ExitOnError)
+	repo := fs.String("repo", "/repo", "repository root")
+	fs.Parse(args)
+	p, err := loadProg(*repo, "", nil)
+	if err != nil {
+		fmt.Fprintln(os.Stderr, err)
+		return 1
+	}
+	a := resolveAnchors(p)
+	reach := p.reachCut([]*ssa.Function{a.RunOnce}, nil)
+	cnt := map[string]int{}
+	for fn := range reach {
+		if !p.inRepo(fn) || fn.Blocks == nil {
+			continue
+		}
+		for _, b := range fn.Blocks {
+			for _, in := range b.Instrs {
+				ci, ok := in.(ssa.CallInstruction)
+				if !ok {
+					continue
+				}
+				cc := ci.Common()
+				if cc.IsInvoke() {
+					cnt["invoke "+cc.Value.Type().String()+"."+cc.Method.Name()]++
+					continue
+				}
+				if f := cc.StaticCallee(); f != nil && !p.inRepo(f) {
+					cnt[f.String()]++
+				} else if _, ok := cc.Value.(*ssa.Builtin); ok {
+					cnt["builtin "+cc.Value.Name()]++
+				}
+			}
+		}
+	}
+	for _, k := range sortedKeys(cnt) {
+		fmt.Printf("%4d %s\n", cnt[k], k)
 	}
 	return 0
 }
